@@ -76,8 +76,19 @@ func runC13(c *fw.Ctx) {
 func c13ClusterOOM(c *fw.Ctx) {
 	r := c.Rand
 	N := 1 + r.Intn(2)
-	tables := []cluster.TableDef{{Name: "t", SQL: "SELECT SUM(v) AS v FROM inbound GROUP BY k, period(1h)", Retention: 48 * time.Hour, PartitionBy: []string{"k"}}}
-	cl, err := cluster.New(cluster.Config{Dir: c.Dir + "/cluster", Tables: tables, NumLeaders: 1, NumPartitions: N, Redundancy: 1, QueryTimeout: 60 * time.Second, FollowerMaxMemory: 1e-12})
+	tables := []cluster.TableDef{
+		{Name: "t", SQL: "SELECT SUM(v) AS v FROM inbound GROUP BY k, period(1h)", Retention: 48 * time.Hour, PartitionBy: []string{"k"}},
+		// a table with a handful of keys: its scans never reach the 1000-row memory check, so it tells
+		// when the capped followers are registered with the leader again
+		{Name: "small", SQL: "SELECT SUM(v) AS v FROM inbound GROUP BY m, period(1h)", Retention: 48 * time.Hour, PartitionBy: []string{"m"}},
+	}
+	// followers run as child processes: they are filled without a memory cap (with the cap every insert
+	// forces a GC and a flush), stopped cleanly, and restarted with a cap so small that any scan of more
+	// than 1000 rows stops with "out of memory" after fields and rows have already been sent. A capped
+	// follower cannot be closed (DB.Close -> flush -> shouldSort deadlocks on tablesMutex) and is killed
+	// at the end of the case.
+	cl, err := cluster.New(cluster.Config{Dir: c.Dir + "/cluster", Tables: tables, NumLeaders: 1, NumPartitions: N, Redundancy: 1, QueryTimeout: 60 * time.Second,
+		ProcFollowers: true, NodeBin: fw.BinDir() + "/vcheck"})
 	if err != nil {
 		c.Inconclusive("cluster: %v", err)
 		return
@@ -90,47 +101,80 @@ func c13ClusterOOM(c *fw.Ctx) {
 	nKeys := 1300*N + r.Intn(500)
 	base := time.Now().Add(-2 * time.Hour).Truncate(time.Hour)
 	for i := 0; i < nKeys; i++ {
-		if err := cl.Leaders[0].DB.Insert("inbound", base.Add(time.Duration(i%3000)*time.Second), map[string]interface{}{"k": fmt.Sprintf("key%06d", i)}, map[string]interface{}{"v": 1.0}); err != nil {
+		if err := cl.Leaders[0].DB.Insert("inbound", base.Add(time.Duration(i%3000)*time.Second), map[string]interface{}{"k": fmt.Sprintf("key%06d", i), "m": i % 7}, map[string]interface{}{"v": 1.0}); err != nil {
 			c.Inconclusive("insert: %v", err)
 			return
 		}
 	}
-	// convergence: the followers together hold nKeys keys (queried directly, in small pieces is not
-	// possible: count through the hook-free path of a grouped query, which scans < 1000 output rows)
-	deadline := time.Now().Add(180 * time.Second)
-	for {
+	// convergence: the followers together hold nKeys keys
+	count := func() int {
 		total := 0.0
 		for _, f := range cl.AllFollowers() {
-			res := dbh.RunQuery(ctxBackground(), f.DB, "SELECT _points FROM t GROUP BY _", true, nil)
+			res := f.Query(ctxBackground(), "SELECT _points FROM t GROUP BY _", true)
 			for i := range res.Rows {
 				total += res.Rows[i].Vals[0]
 			}
 		}
-		if int(total) == nKeys {
-			break
-		}
+		return int(total)
+	}
+	deadline := time.Now().Add(180 * time.Second)
+	for count() != nKeys {
 		if time.Now().After(deadline) {
-			c.Inconclusive("followers hold %v of %d keys after 180s", total, nKeys)
+			c.Inconclusive("followers hold %v of %d keys after 180s", count(), nKeys)
 			return
 		}
 		time.Sleep(200 * time.Millisecond)
 	}
 	q := "SELECT * FROM t"
-	ctx, cancel := context.WithTimeout(context.Background(), 60*time.Second)
-	got := dbh.RunQuery(ctx, cl.Leaders[0].DB, q, true, nil)
-	cancel()
-	stats, _ := got.Stats.(*common.QueryStats)
-	flagged := got.Failed() || (stats != nil && (len(stats.MissingPartitions) > 0 || stats.NumSuccessfulPartitions < stats.NumPartitions))
-	c.Obs("cluster_oom_executions", 1)
-	c.HashAdd("oom", N, nKeys)
-	entry := fmt.Sprintf("followers with a tiny memory cap: %q -> %d of %d rows, err=%q, stats=%+v", q, len(got.Rows), nKeys, got.ErrString(), stats)
-	if len(got.Rows) < nKeys {
-		c.Nontrivial(true)
-		if !flagged {
-			c.ViolateData("c13-cluster-truncated-without-signal", entry, "cluster query %q whose follower-side scans stop with out-of-memory delivered %d of %d rows, nil error, and statistics that list no missing partition (%+v)", q, len(got.Rows), nKeys, stats)
+	truth := dbh.RunQuery(ctxBackground(), cl.Leaders[0].DB, q, true, nil)
+	if truth.Failed() || len(truth.Rows) != nKeys {
+		c.Inconclusive("uncapped cluster returns %d of %d rows (%s)", len(truth.Rows), nKeys, truth.ErrString())
+		return
+	}
+	// restart the followers with the cap
+	for _, f := range cl.AllFollowers() {
+		f.Stop()
+	}
+	cl.Cfg.FollowerMaxMemory = 1e-12
+	for _, f := range cl.AllFollowers() {
+		if err := f.Start(); err != nil {
+			c.Inconclusive("restart with memory cap: %v", err)
+			return
 		}
 	}
-	c.Sample(map[string]interface{}{"kind": "cluster-oom", "partitions": N, "keys": nKeys, "log": []string{entry}})
+	deadline = time.Now().Add(120 * time.Second)
+	for {
+		res := dbh.RunQuery(ctxBackground(), cl.Leaders[0].DB, "SELECT * FROM small", true, nil)
+		st, _ := res.Stats.(*common.QueryStats)
+		if !res.Failed() && st != nil && st.NumSuccessfulPartitions == N && len(st.MissingPartitions) == 0 && len(res.Rows) >= 7 {
+			break
+		}
+		if time.Now().After(deadline) {
+			c.Inconclusive("capped followers did not register with the leader within 120s (%s; %d rows; stats %+v)", res.ErrString(), len(res.Rows), st)
+			return
+		}
+		time.Sleep(200 * time.Millisecond)
+	}
+	var log []string
+	for _, q := range []string{"SELECT * FROM t", "SELECT v FROM t ORDER BY v", "SELECT v, _points FROM t GROUP BY k", "SELECT * FROM t LIMIT 100000"} {
+		ctx, cancel := context.WithTimeout(context.Background(), 60*time.Second)
+		got := dbh.RunQuery(ctx, cl.Leaders[0].DB, q, true, nil)
+		cancel()
+		stats, _ := got.Stats.(*common.QueryStats)
+		flagged := got.Failed() || (stats != nil && (len(stats.MissingPartitions) > 0 || stats.NumSuccessfulPartitions < stats.NumPartitions))
+		c.Obs("cluster_oom_executions", 1)
+		c.HashAdd("oom", N, nKeys, q)
+		entry := fmt.Sprintf("followers with a tiny memory cap: %q -> %d of %d rows, err=%q, stats=%+v", q, len(got.Rows), nKeys, got.ErrString(), stats)
+		log = append(log, entry)
+		if len(got.Rows) < nKeys {
+			c.Nontrivial(true)
+			c.Obs("cluster_oom_truncated", 1)
+			if !flagged {
+				c.ViolateData("c13-cluster-truncated-without-signal", entry, "cluster query %q whose follower-side scans stop with out-of-memory delivered %d of %d rows, nil error, and statistics that list no missing partition (%+v)", q, len(got.Rows), nKeys, stats)
+			}
+		}
+	}
+	c.Sample(map[string]interface{}{"kind": "cluster-oom", "partitions": N, "keys": nKeys, "log": log})
 }
 
 // c13Cluster: partitions made unavailable (all followers of a partition stopped), or failing mid-scan
